@@ -19,7 +19,7 @@ SCENARIOS = {}          # property id -> list of Scenario
 
 class Scenario(object):
     def __init__(self, prop, name, func, fn, grid_quick, grid_thorough, expect='ok', replay=None, documented=None,
-                 max_paths=3000, timeout_ms=None, allow_raise=None):
+                 max_paths=3000, timeout_ms=None, allow_raise=None, dtypes=None):
         self.prop = prop
         self.name = name
         self.func = func            # qualified name(s) of the repository function(s) under contract
@@ -32,10 +32,22 @@ class Scenario(object):
         self.max_paths = max_paths
         self.timeout_ms = timeout_ms
         self.allow_raise = allow_raise or ()
+        self.dtypes = dtypes
 
     def grid(self, tier):
         g = self.grid_quick if tier == 'quick' else self.grid_thorough
-        return list(g() if callable(g) else g)
+        g = list(g() if callable(g) else g)
+        if self.dtypes:
+            # value scenarios run with complex data by default (conj is then not the identity, so a dropped or spurious
+            # conjugation is visible); the low orders are repeated for the real dtypes (dtype preservation)
+            extra = []
+            for p in g:
+                o = max([v for k, v in p.items() if k in ('d', 'dx', 'd1') and isinstance(v, int)] or [1])
+                if o <= (2 if tier == 'quick' else 3) and 'dtype' not in p:
+                    for dt in self.dtypes:
+                        extra.append(dict(p, dtype=dt))
+            g = g + extra
+        return g
 
 
 def scenario(prop, name, func, quick, thorough=None, **kw):
@@ -65,7 +77,12 @@ class Ob(object):
     def describe(self, key, value):
         self.inst[key] = value
 
-    def tt(self, name, d, ttm=False, dtype='float64', N=None, M=None, R=None, register=True):
+    def dt(self):
+        """dtype of the operands of this scenario instance"""
+        return self.params.get('dtype') or ('complex128' if self.scen.dtypes else 'float64')
+
+    def tt(self, name, d, ttm=False, dtype=None, N=None, M=None, R=None, register=True):
+        dtype = dtype or self.dt()
         obj = H.mk_tt(self.ex, name, d, ttm=ttm, dtype=dtype, N=N, M=M, R=R, register=register)
         sp = obj._spec
         self.inst[name] = {'kind': 'ttm' if ttm else 'tt', 'N': sp['N'], 'M': sp['M'], 'R': sp['R'], 'dtype': dtype}
@@ -344,7 +361,9 @@ def run_instance(scen, params, repo=None):
         ob = Ob(ex, scen, params)
         ex.ob = ob
         try:
-            scen.fn(ob, **params)
+            import inspect
+            names = inspect.signature(scen.fn).parameters
+            scen.fn(ob, **{k: v for k, v in params.items() if k in names})
         finally:
             ex.ob_done = ob
         return ob
